@@ -82,7 +82,7 @@ Definition inv_late (v : variant) (env : bool) (s : state) : bool :=
         (match pk (tw s) with Run => true | _ => false end
          && implb (done (progs v env) s TW)
                   (match v with
-                   | VGetSig | VGetSigTimed | VGetSigReader | VGetSigTimedReader => m_exc (tw s) || m_sig (tw s)
+                   | VGetSig | VGetSigTimed | VGetSigReader | VGetSigTimedReader | VGetSigPoll => m_exc (tw s) || m_sig (tw s)
                    | VSleep => m_exc (tw s)
                    | VLoop => m_fin (tw s)
                    end)).
